@@ -100,6 +100,7 @@ struct Src {
 struct RcSrc final : Src {
   int64_t raw(int64_t lo, int64_t hi) override {
     // inRange collapses towards lo at small sizes: always generate at full size
+    if (hi == INT64_MAX) --hi;  // inRange is exclusive at the top
     return *rc::gen::resize(100, rc::gen::inRange<int64_t>(lo, hi + 1));
   }
 };
